@@ -37,12 +37,12 @@ SOURCES = ['celt/entenc.c', 'celt/entdec.c', 'celt/entcode.c', 'celt/entcode.h',
            'silk/code_signs.c', 'silk/stereo_encode_pred.c', 'silk/NLSF_unpack.c', 'silk/decode_indices.c', 'silk/decode_pulses.c',
            'silk/tables_pulses_per_block.c', 'silk/tables_other.c', 'silk/tables_gain.c', 'silk/tables_pitch_lag.c', 'silk/tables_LTP.c',
            'silk/tables_NLSF_CB_NB_MB.c', 'silk/tables_NLSF_CB_WB.c', 'silk/control_codec.c', 'silk/decoder_set_fs.c', 'silk/define.h',
-           'silk/stereo_decode_pred.c', 'silk/decode_frame.c', 'silk/float/encode_frame_FLP.c', 'silk/fixed/encode_frame_FIX.c', 'silk/stereo_LR_to_MS.c']
+           'src/opus_encoder.c', 'src/opus_decoder.c', 'silk/stereo_decode_pred.c', 'silk/decode_frame.c', 'silk/float/encode_frame_FLP.c', 'silk/fixed/encode_frame_FIX.c', 'silk/stereo_LR_to_MS.c']
 REQUIRED_THEOREMS = ['OpusProps.C08.rng_normalised', 'OpusProps.C08.tell_frac_bounds', 'OpusProps.C08.tell_frac_formula',
                      'OpusProps.C08.tell_monotone', 'OpusProps.C08.decode_encode', 'OpusProps.C08.lockstep_rng',
                      'OpusProps.C08.decode_encode_patched', 'OpusProps.C08.done_within_budget',
                      'OpusProps.C08.outside_untouched', 'OpusProps.C08.lockstep_symbols', 'OpusProps.C08.silk_flags_roundtrip', 'OpusProps.C08.laplace_pvq_roundtrip',
-                     'OpusProps.C08.tell_contracts', 'OpusProps.C08.bytes_below_tell', 'OpusProps.C08.silk_syms_roundtrip_frame', 'OpusProps.C08.silk_syms_roundtrip']
+                     'OpusProps.C08.tell_contracts', 'OpusProps.C08.bytes_below_tell', 'OpusProps.C08.silk_syms_roundtrip_frame', 'OpusProps.C08.silk_syms_roundtrip', 'OpusProps.C08.opus_frame_lockstep_silk']
 UNPROVED = []
 RULE = ('op sequences of length 1..4000 over all nine operation kinds (ec_encode, ec_encode_bin, ec_enc_bit_logp, ec_enc_icdf, '
         'ec_enc_icdf16, ec_enc_uint, ec_enc_bits, ec_enc_patch_initial_bits, ec_enc_shrink) drawn from the seed by a '
